@@ -251,6 +251,8 @@ pub trait PsSide {
     fn upd(&mut self, p: usize) -> Out;
     fn counts(&mut self) -> Out;
     fn details(&self) -> (TypeInfo, TypeInfo);
+    /// service-level calls that must fail: open-missing, create-dup, open-badtype, ooc-badtype, open-limits
+    fn extra(&mut self, what: &str) -> Out;
     /// forgets (leaks) a publisher: used by the self-test of the leak oracle only
     fn forget_pub(&mut self, p: usize);
     /// drops every handle of this side (ports, samples, service, node)
@@ -290,6 +292,7 @@ macro_rules! r_ps_side {
             samples: HashMap<usize, Vec<Sample<S, $pay, H>>>,
             origins: Vec<u128>,
             hdr: bool,
+            name: String,
         }
         impl<T: Pod, H: Hdr> $name<T, H> {
             fn make(prefix: &str, name: &str, cfg: &PsCfg, create: bool) -> Result<Box<dyn PsSide>, Out> {
@@ -308,7 +311,7 @@ macro_rules! r_ps_side {
                 } else {
                     b.open().map_err(|e| Out::R("PublishSubscribeOpenError", format!("{e:?}")))?
                 };
-                Ok(Box::new($name::<T, H> { node: Some(node), svc: Some(svc), pubs: HashMap::new(), subs: HashMap::new(), loans: HashMap::new(), samples: HashMap::new(), origins: vec![], hdr: cfg.hdr != 0 }))
+                Ok(Box::new($name::<T, H> { node: Some(node), svc: Some(svc), pubs: HashMap::new(), subs: HashMap::new(), loans: HashMap::new(), samples: HashMap::new(), origins: vec![], hdr: cfg.hdr != 0, name: name.to_string() }))
             }
         }
         impl<T: Pod, H: Hdr> PsSide for $name<T, H> {
@@ -405,6 +408,24 @@ macro_rules! r_ps_side {
             }
             fn forget_pub(&mut self, p: usize) {
                 if let Some(x) = self.pubs.remove(&p) { std::mem::forget(x) }
+            }
+            fn extra(&mut self, what: &str) -> Out {
+                let node = self.node.as_ref().unwrap();
+                let sn = ServiceName::new(&self.name).unwrap();
+                let missing = ServiceName::new(&format!("{}/missing", self.name)).unwrap();
+                match what {
+                    "open-missing" => match node.service_builder(&missing).publish_subscribe::<$pay>().user_header::<H>().open() {
+                        Ok(_) => Out::Ok("opened".into()), Err(e) => Out::R("PublishSubscribeOpenError", format!("{e:?}")) },
+                    "create-dup" => match node.service_builder(&sn).publish_subscribe::<$pay>().user_header::<H>().create() {
+                        Ok(_) => Out::Ok("created".into()), Err(e) => Out::R("PublishSubscribeCreateError", format!("{e:?}")) },
+                    "open-badtype" => match node.service_builder(&sn).publish_subscribe::<u32>().user_header::<H>().open() {
+                        Ok(_) => Out::Ok("opened".into()), Err(e) => Out::R("PublishSubscribeOpenError", format!("{e:?}")) },
+                    "ooc-badtype" => match node.service_builder(&sn).publish_subscribe::<u32>().user_header::<H>().open_or_create() {
+                        Ok(_) => Out::Ok("opened".into()), Err(e) => Out::R("PublishSubscribeOpenOrCreateError", format!("{e:?}")) },
+                    "open-limits" => match node.service_builder(&sn).publish_subscribe::<$pay>().user_header::<H>().max_publishers(100).open() {
+                        Ok(_) => Out::Ok("opened".into()), Err(e) => Out::R("PublishSubscribeOpenError", format!("{e:?}")) },
+                    _ => panic!("bad extra"),
+                }
             }
             fn fin(&mut self) {
                 self.samples.clear();
@@ -539,6 +560,7 @@ pub struct CPs {
     pay: TypeInfo,
     uh: TypeInfo,
     hdr: usize,
+    name: String,
 }
 impl CPs {
     fn make(prefix: &str, name: &str, cfg: &PsCfg, create: bool, pay: &TypeInfo, uh: &TypeInfo) -> Result<Box<dyn PsSide>, Out> {
@@ -566,7 +588,7 @@ impl CPs {
                 node.fin();
                 return Err(Out::C("iox2_pub_sub_open_or_create_error_e", rc));
             }
-            Ok(Box::new(CPs { node, svc, pubs: HashMap::new(), subs: HashMap::new(), loans: HashMap::new(), samples: HashMap::new(), origins: vec![], pay: pay.clone(), uh: uh.clone(), hdr: cfg.hdr }))
+            Ok(Box::new(CPs { node, svc, pubs: HashMap::new(), subs: HashMap::new(), loans: HashMap::new(), samples: HashMap::new(), origins: vec![], pay: pay.clone(), uh: uh.clone(), hdr: cfg.hdr, name: name.to_string() }))
         }
     }
     unsafe fn write_hdr(&self, h: iox2_sample_mut_h, seed: u64) {
@@ -735,6 +757,30 @@ impl PsSide for CPs {
     fn forget_pub(&mut self, p: usize) {
         let _ = self.pubs.remove(&p);
     }
+    fn extra(&mut self, what: &str) -> Out {
+        unsafe {
+            let name = if what == "open-missing" { format!("{}/missing", self.name) } else { self.name.clone() };
+            let b = iox2_service_builder_pub_sub(self.node.service_builder(&name));
+            let variant = |d: bool| if d { iox2_type_variant_e::DYNAMIC } else { iox2_type_variant_e::FIXED_SIZE };
+            let bad = what == "open-badtype" || what == "ooc-badtype";
+            let (tn, ts, ta) = if bad { ("u32".to_string(), 4, 4) } else { (self.pay.name.clone(), self.pay.size, self.pay.align) };
+            let rc = iox2_service_builder_pub_sub_set_payload_type_details(&b, variant(self.pay.dynamic && !bad), tn.as_ptr() as *const c_char, tn.len(), ts, ta);
+            assert!(rc == IOX2_OK);
+            let rc = iox2_service_builder_pub_sub_set_user_header_type_details(&b, variant(self.uh.dynamic), self.uh.name.as_ptr() as *const c_char, self.uh.name.len(), self.uh.size, self.uh.align);
+            assert!(rc == IOX2_OK);
+            let mut svc: iox2_port_factory_pub_sub_h = null_mut();
+            let rc = match what {
+                "open-missing" | "open-badtype" => iox2_service_builder_pub_sub_open(b, null_mut(), &mut svc),
+                "create-dup" => iox2_service_builder_pub_sub_create(b, null_mut(), &mut svc),
+                "ooc-badtype" => iox2_service_builder_pub_sub_open_or_create(b, null_mut(), &mut svc),
+                "open-limits" => { iox2_service_builder_pub_sub_set_max_publishers(&b, 100); iox2_service_builder_pub_sub_open(b, null_mut(), &mut svc) }
+                _ => panic!("bad extra"),
+            };
+            if rc != IOX2_OK { return Out::C("iox2_pub_sub_open_or_create_error_e", rc) }
+            iox2_port_factory_pub_sub_drop(svc);
+            Out::Ok(if what == "create-dup" { "created" } else { "opened" }.into())
+        }
+    }
     fn fin(&mut self) {
         unsafe {
             for (_, v) in self.samples.drain() { for h in v { iox2_sample_drop(h) } }
@@ -759,6 +805,8 @@ pub trait EvSide {
     fn notify(&mut self, n: usize, id: Option<usize>) -> Out;
     fn wait(&mut self, l: usize) -> Out;
     fn counts(&mut self) -> Out;
+    /// service-level calls that must fail: open-missing, create-dup, open-limits, ooc-limits
+    fn extra(&mut self, what: &str) -> Out;
     fn fin(&mut self);
 }
 #[derive(Clone, Debug)]
@@ -768,6 +816,7 @@ pub struct EvCfg {
     id_max: usize,
 }
 pub struct REv {
+    name: String,
     node: Option<Node<S>>,
     svc: Option<iceoryx2::service::port_factory::event::PortFactory<S>>,
     nots: HashMap<usize, Notifier<S>>,
@@ -783,7 +832,7 @@ impl REv {
         } else {
             b.open().map_err(|e| Out::R("EventOpenError", format!("{e:?}")))?
         };
-        Ok(Box::new(REv { node: Some(node), svc: Some(svc), nots: HashMap::new(), liss: HashMap::new() }))
+        Ok(Box::new(REv { name: name.to_string(), node: Some(node), svc: Some(svc), nots: HashMap::new(), liss: HashMap::new() }))
     }
 }
 fn show_events(mut v: Vec<(usize, u64)>, n: u64) -> String {
@@ -822,6 +871,18 @@ impl EvSide for REv {
         let d = self.svc.as_ref().unwrap().dynamic_config();
         Out::Ok(format!("n{}l{}", d.number_of_notifiers(), d.number_of_listeners()))
     }
+    fn extra(&mut self, what: &str) -> Out {
+        let node = self.node.as_ref().unwrap();
+        let sn = ServiceName::new(&self.name).unwrap();
+        let missing = ServiceName::new(&format!("{}/missing", self.name)).unwrap();
+        match what {
+            "open-missing" => match node.service_builder(&missing).event().open() { Ok(_) => Out::Ok("opened".into()), Err(e) => Out::R("EventOpenError", format!("{e:?}")) },
+            "create-dup" => match node.service_builder(&sn).event().create() { Ok(_) => Out::Ok("created".into()), Err(e) => Out::R("EventCreateError", format!("{e:?}")) },
+            "open-limits" => match node.service_builder(&sn).event().max_notifiers(100).open() { Ok(_) => Out::Ok("opened".into()), Err(e) => Out::R("EventOpenError", format!("{e:?}")) },
+            "ooc-limits" => match node.service_builder(&sn).event().max_listeners(100).open_or_create() { Ok(_) => Out::Ok("opened".into()), Err(e) => Out::R("EventOpenOrCreateError", format!("{e:?}")) },
+            _ => panic!("bad extra"),
+        }
+    }
     fn fin(&mut self) {
         self.nots.clear();
         self.liss.clear();
@@ -830,6 +891,7 @@ impl EvSide for REv {
     }
 }
 pub struct CEv {
+    name: String,
     node: CNode,
     svc: iox2_port_factory_event_h,
     nots: HashMap<usize, iox2_notifier_h>,
@@ -857,7 +919,7 @@ impl CEv {
                 node.fin();
                 return Err(Out::C("iox2_event_open_or_create_error_e", rc));
             }
-            Ok(Box::new(CEv { node, svc, nots: HashMap::new(), liss: HashMap::new() }))
+            Ok(Box::new(CEv { name: name.to_string(), node, svc, nots: HashMap::new(), liss: HashMap::new() }))
         }
     }
 }
@@ -918,6 +980,23 @@ impl EvSide for CEv {
     }
     fn counts(&mut self) -> Out {
         unsafe { Out::Ok(format!("n{}l{}", iox2_port_factory_event_dynamic_config_number_of_notifiers(&self.svc), iox2_port_factory_event_dynamic_config_number_of_listeners(&self.svc))) }
+    }
+    fn extra(&mut self, what: &str) -> Out {
+        unsafe {
+            let name = if what == "open-missing" { format!("{}/missing", self.name) } else { self.name.clone() };
+            let b = iox2_service_builder_event(self.node.service_builder(&name));
+            let mut svc: iox2_port_factory_event_h = null_mut();
+            let rc = match what {
+                "open-missing" => iox2_service_builder_event_open(b, null_mut(), &mut svc),
+                "create-dup" => iox2_service_builder_event_create(b, null_mut(), &mut svc),
+                "open-limits" => { iox2_service_builder_event_set_max_notifiers(&b, 100); iox2_service_builder_event_open(b, null_mut(), &mut svc) }
+                "ooc-limits" => { iox2_service_builder_event_set_max_listeners(&b, 100); iox2_service_builder_event_open_or_create(b, null_mut(), &mut svc) }
+                _ => panic!("bad extra"),
+            };
+            if rc != IOX2_OK { return Out::C("iox2_event_open_or_create_error_e", rc) }
+            iox2_port_factory_event_drop(svc);
+            Out::Ok(if what == "create-dup" { "created" } else { "opened" }.into())
+        }
     }
     fn fin(&mut self) {
         unsafe {
@@ -1006,13 +1085,29 @@ impl Drop for FfiComp {
 /// files of this domain that still exist: service + node directories, /dev/shm.  The per-domain
 /// `…global_mgmt` segment is shared by all nodes of a domain and stays by design; it is removed here.
 fn leftovers(prefix: &str) -> Vec<String> {
-    let cfg = rust_config(prefix);
-    let root = format!("{}", cfg.global.root_path());
-    let mut dirs = vec![format!("{}", cfg.global.service_dir()), format!("{}", cfg.global.node_dir()), "/dev/shm".to_string(), root];
-    dirs.dedup();
     let mut left = vec![];
-    for d in dirs {
-        let Ok(rd) = std::fs::read_dir(&d) else { continue };
+    // the root directory is private to this process: after all handles are gone nothing may remain below it
+    // except the two (empty) directories themselves
+    fn walk(dir: &std::path::Path, depth: usize, left: &mut Vec<String>) {
+        let Ok(rd) = std::fs::read_dir(dir) else { return };
+        for e in rd.flatten() {
+            let p = e.path();
+            let name = e.file_name().to_string_lossy().to_string();
+            if depth == 0 && p.is_dir() && (name == "services" || name == "nodes") {
+                walk(&p, 1, left);
+                continue;
+            }
+            if name.ends_with(".global_mgmt") {
+                let _ = std::fs::remove_file(&p);
+                continue;
+            }
+            left.push(p.to_string_lossy().to_string());
+            if p.is_dir() { let _ = std::fs::remove_dir_all(&p); } else { let _ = std::fs::remove_file(&p); }
+        }
+    }
+    walk(std::path::Path::new(&root_dir()), 0, &mut left);
+    // shared memory objects of the domain carry the config prefix
+    if let Ok(rd) = std::fs::read_dir("/dev/shm") {
         for e in rd.flatten() {
             let n = e.file_name().to_string_lossy().to_string();
             if n.starts_with(prefix) {
@@ -1020,8 +1115,8 @@ fn leftovers(prefix: &str) -> Vec<String> {
                     let _ = std::fs::remove_file(e.path());
                     continue;
                 }
-                left.push(format!("{d}/{n}").replace("//", "/"));
-                if e.path().is_dir() { let _ = std::fs::remove_dir_all(e.path()); } else { let _ = std::fs::remove_file(e.path()); }
+                left.push(format!("/dev/shm/{n}"));
+                let _ = std::fs::remove_file(e.path());
             }
         }
     }
@@ -1217,6 +1312,7 @@ impl Comp for FfiComp {
                     "has" => w.rx().has(n(t[1])),
                     "upd" => w.tx().upd(n(t[1])),
                     "counts" => { let a = w.tx().counts(); let b = w.rx().counts(); Out::Ok(format!("{}|{}", canon(&a).0, canon(&b).0)) }
+                    "extra" => { let a = w.tx().extra(t[1]); if w.rx.is_some() { let b = w.rx().extra(t[1]); if canon(&a).1 != canon(&b).1 { Out::Ok(format!("{}|{}", canon(&a).1, canon(&b).1)) } else { a } } else { a } }
                     // self-test of the leak oracle (never generated): a publisher whose handle is forgotten
                     "leakpub" => { let r = w.tx().cpub(9999, 1, 1); w.tx().forget_pub(9999); r }
                     _ => panic!("bad op"),
@@ -1231,6 +1327,7 @@ impl Comp for FfiComp {
                     "dlis" => w.rx().dlis(n(t[1])),
                     "notify" => w.tx().notify(n(t[1]), opt(t[2])),
                     "wait" => w.rx().wait(n(t[1])),
+                    "extra" => { let a = w.tx().extra(t[1]); if w.rx.is_some() { let b = w.rx().extra(t[1]); if canon(&a).1 != canon(&b).1 { Out::Ok(format!("{}|{}", canon(&a).1, canon(&b).1)) } else { a } } else { a } }
                     "counts" => { let a = w.tx().counts(); let b = w.rx().counts(); Out::Ok(format!("{}|{}", canon(&a).0, canon(&b).0)) }
                     _ => panic!("bad op"),
                 }).collect();
@@ -1258,7 +1355,7 @@ fn gen_ps(rng: &mut Rng, len: u64, slice: bool) -> Vec<String> {
     let mut loans: Vec<(usize, usize)> = vec![];
     let mut held: HashMap<usize, usize> = HashMap::new();
     let mut seed = rng.below(1000);
-    let wts: [u64; 13] = [9, 9, 3, 3, 24, 5, 6, 22, 9, 3, 2, 3, 2];
+    let wts: [u64; 13] = [9, 9, 3, 3, 24, 5, 6, 22, 9, 3, 2, 3, 4];
     let total: u64 = wts.iter().sum();
     for _ in 0..rng.range(4, len) {
         let mut c = rng.below(total);
@@ -1324,6 +1421,7 @@ fn gen_ps(rng: &mut Rng, len: u64, slice: bool) -> Vec<String> {
             9 if !subs.is_empty() => format!("has {}", rng.pick(&subs)),
             10 if !pubs.is_empty() => format!("upd {}", rng.pick(&pubs).0),
             11 => "counts".to_string(),
+            12 => format!("extra {}", rng.pick(&["open-missing", "create-dup", "open-badtype", "ooc-badtype", "open-limits"])),
             _ => continue,
         };
         lines.push(l);
@@ -1338,7 +1436,7 @@ fn gen_ev(rng: &mut Rng, len: u64) -> Vec<String> {
     let mut lines = vec![format!("new ev {mn} {ml} {id_max}")];
     let (mut nn, mut nl) = (0usize, 0usize);
     let (mut nots, mut liss): (Vec<usize>, Vec<usize>) = (vec![], vec![]);
-    let wts: [u64; 7] = [10, 10, 3, 3, 40, 30, 4];
+    let wts: [u64; 8] = [10, 10, 3, 3, 40, 30, 4, 6];
     let total: u64 = wts.iter().sum();
     for _ in 0..rng.range(4, len) {
         let mut c = rng.below(total);
@@ -1354,6 +1452,7 @@ fn gen_ev(rng: &mut Rng, len: u64) -> Vec<String> {
             4 if !nots.is_empty() => { let x = *rng.pick(&nots); if rng.chance(40) { format!("notify {x} -") } else { format!("notify {x} {}", rng.range(0, id_max + 2)) } }
             5 if !liss.is_empty() => format!("wait {}", rng.pick(&liss)),
             6 => "counts".to_string(),
+            7 => format!("extra {}", rng.pick(&["open-missing", "create-dup", "open-limits", "ooc-limits"])),
             _ => continue,
         };
         lines.push(l);
